@@ -20,7 +20,7 @@ LEVEL_TEXT = ("Crash-point enumeration per sampled model: every step of the refe
               "memory and through a JSON restart; models themselves are sampled by seed.")
 LEVEL_NOTE = "Trusted: dump comparison; the set of models is a seeded sample (the pause points per model are enumerated in the thorough tier)."
 PROBES = ["pause_in_memory", "pause_via_json", "pause_chain", "pause_at_0", "pause_at_end", "pause_with_working_task",
-          "pause_on_absence_step", "pause_after_finish", "reference_cut_off_by_limit", "with_subproject_task"]
+          "pause_on_absence_step", "pause_after_finish", "reference_cut_off_by_limit", "with_subproject_task", "with_unit_time"]
 
 
 def budget(tier):
@@ -51,6 +51,8 @@ def gen(rng, tier):
         spec["ranks"]["tsub"] = max(spec["ranks"].values()) + 1
     if rng.random() < 0.5:
         spec["model"]["share_id_objects"] = True  # main_workplace_id is the workplace's own ID object, as in `main_workplace_id=wp.ID`
+    if rng.random() < 0.1:
+        spec["cfg"]["unit_time"] = rng.choice([2, 3])  # the clock advances by 2 or 3 per step: a pause point is a time
     spec["all_k"] = (tier == "thorough")
     spec["ks"] = [rng.randint(0, 30) for _ in range(3)]
     spec["chain"] = sorted(rng.randint(0, 20) for _ in range(rng.randint(2, 3)))
@@ -149,11 +151,16 @@ def run(spec):
         return res
     if int(ref.project.status) == -1:
         res.count("reference_cut_off_by_limit")
-    hi = min(n + 1, M)
+    ut = spec["cfg"].get("unit_time", 1) or 1
+    n_steps = n
+    n = n * ut  # pause points are times
+    if ut != 1:
+        res.count("with_unit_time")
+    hi = min(n + ut, M)
     if spec.get("all_k"):
         ks = list(range(0, hi + 1))
     else:
-        ks = sorted(set([0, 1, max(0, n - 1), n] + [k % (hi + 1) for k in spec.get("ks", [])]))
+        ks = sorted(set([0, 1, max(0, n - ut), n] + [k % (hi + 1) for k in spec.get("ks", [])]))
         ks = [k for k in ks if k <= hi]
     vr = random.Random(spec.get("via_seed", 0))
     plans = []
